@@ -11,7 +11,7 @@
 From Coq Require Import List NArith Bool Lia ZifyN ZifyNat ZifyBool.
 From Frugal Require Import Bytes Wire Skip Values Desc Spec Encode Decode Checks.
 From Frugal.gen Require Import Params.
-From Frugal.proofs Require Import GenOk SizeExact SkipPut DecodeSafe BytesWire EncodeSpec DecodeRefines.
+From Frugal.proofs Require Import SizeExact SkipPut DecodeSafe BytesWire EncodeSpec DecodeRefines.
 Import ListNotations.
 Open Scope N_scope.
 
